@@ -17,11 +17,13 @@ def main():
     shutil.rmtree(SCR, ignore_errors=True)
     shutil.copytree(HERE, SCR, ignore=shutil.ignore_patterns("target", "__pycache__", "RESULT.json"))
     env = dict(os.environ, CARGO_NET_OFFLINE="true", CARGO_TARGET_DIR=os.path.join(SCR, "target"))
-    r = subprocess.run(["cargo", "test", "--offline", "--test", "dump", "--", "--nocapture", "--test-threads", "1"], cwd=SCR, env=env, capture_output=True, text=True)
-    if r.returncode != 0:
-        print(r.stdout[-3000:], r.stderr[-5000:])
-        raise SystemExit("zoo harness failed")
-    recs = [json.loads(l) for l in r.stdout.splitlines() if l.startswith("{")]
+    real = {}
+    for profile, flag in (("checked", []), ("unchecked", ["--release"])):
+        r = subprocess.run(["cargo", "test", "--offline"] + flag + ["--test", "dump", "--", "--nocapture", "--test-threads", "1"], cwd=SCR, env=env, capture_output=True, text=True)
+        if r.returncode != 0:
+            print(r.stdout[-3000:], r.stderr[-5000:])
+            raise SystemExit("zoo harness failed")
+        real[profile] = [json.loads(l) for l in r.stdout.splitlines() if l.startswith("{")]
     shutil.rmtree(os.path.join(SCR, "target"), ignore_errors=True)
     os.environ["VERIF_REPO"] = SCR
     os.environ["CKC_EVIDENCE_DIR"] = os.path.join(SCR, "_ev")
@@ -34,6 +36,7 @@ def main():
     from ckcverif.evals import evaluate
     res = {}
     for profile in ("checked", "unchecked"):
+        recs = real[profile]      # debug build for the checked facts, release build for the unchecked ones
         F, _ = extract.extract(profile)
         pdb = PDB(F)
         ctx = Ctx(pdb, Report("X", "quick", "other"), "quick")
